@@ -130,6 +130,8 @@ type Body struct {
 	DDLog     []DDLog    `json:"ddlog,omitempty"`
 	DDMet     []DDSeries `json:"ddmet,omitempty"`
 	Otlp      []OResLog  `json:"otlp,omitempty"`
+	ND        []NDLine   `json:"nd,omitempty"`     // ddcf / esbulk: one JSON object (or nothing) per line
+	NDCtx     Str        `json:"nd_ctx,omitempty"` // ddcf: the ddsource of the route; esbulk: its target
 }
 
 // ---------------------------------------------------------------- observations
@@ -157,6 +159,9 @@ type Obs struct {
 	FpTab  []FpRow `json:"fptab"`
 	// indices of the responses whose content at the end of the request differs from their content when received
 	Changed []int `json:"changed_after_receive,omitempty"`
+	// the clock (UnixNano) just before the parser was started and just after its channel was closed
+	T0 int64 `json:"t0,omitempty"`
+	T1 int64 `json:"t1,omitempty"`
 }
 
 type Case struct {
@@ -227,6 +232,10 @@ func parserOf(proto string) unmarshal.ParsingFunction {
 		return unmarshal.UnmarshallDatadogMetricsV2JSONV2
 	case "otlp":
 		return unmarshal.UnmarshalOTLPLogsV2
+	case "ddcf":
+		return unmarshal.UnmarshallDatadogCFJSONV2
+	case "esbulk":
+		return unmarshal.ElasticBulkUnmarshalV2
 	}
 	panic("unknown proto " + proto)
 }
@@ -361,6 +370,12 @@ func run(c *Case) {
 	if c.Proto == "influx" {
 		ctx = context.WithValue(ctx, "precision", time.Duration(c.Body.Precision))
 	}
+	if c.Proto == "ddcf" {
+		ctx = context.WithValue(ctx, "ddsource", string(c.Body.NDCtx))
+	}
+	if c.Proto == "esbulk" {
+		ctx = context.WithValue(ctx, "target", string(c.Body.NDCtx))
+	}
 	c.Obs = Obs{Chunks: []Chunk{}, FpTab: []FpRow{}}
 	seen := map[string]bool{}
 	var hs *histState
@@ -385,6 +400,7 @@ func run(c *Case) {
 		if hs != nil {
 			cache = hs.cache
 		}
+		c.Obs.T0 = time.Now().UnixNano()
 		ch = parserOf(c.Proto)(ctx, bytes.NewReader(wire), cache)
 		// The real consumer (controller.doParse -> doPush goroutines, with retries) still holds the responses it
 		// received while the parser goes on: every response is kept BY REFERENCE until the channel is closed and
@@ -408,6 +424,7 @@ func run(c *Case) {
 			held = append(held, r)
 			atReceive = append(atReceive, digest(r))
 		}
+		c.Obs.T1 = time.Now().UnixNano()
 		for i, r := range held {
 			if digest(r) != atReceive[i] {
 				c.Obs.Changed = append(c.Obs.Changed, i)
@@ -485,6 +502,10 @@ func run(c *Case) {
 		c.CoqJ = fmt.Sprintf("DCase (%s)\n    %s %v %s", c.Coq, c.doc.coq(), written, tagLetters(*c.doc))
 		c.TreeKind = "dcase"
 	}
+	if c.Proto == "ddcf" || c.Proto == "esbulk" {
+		c.CoqJ = fmt.Sprintf("WCase (%s)\n    %s %s %v", c.Coq, cstr(c.Body.NDCtx), ndCoqLines(c), !c.Damage)
+		c.TreeKind = "wcase"
+	}
 	if c.Proto == "ddmet" && c.doc != nil {
 		c.CoqJ = fmt.Sprintf("MCase (%s)\n    %s %v", c.Coq, c.doc.coq(), !c.Damage)
 		c.TreeKind = "mcase"
@@ -515,6 +536,9 @@ func countEntries(c *Case) int {
 		n += num
 	}
 	n += len(c.Body.DDLog)
+	if len(c.Body.ND) > 0 {
+		n += ndEntries(c)
+	}
 	for _, s := range c.Body.DDMet {
 		n += len(s.Points)
 	}
@@ -559,18 +583,28 @@ func main() {
 		// small Loki JSON documents only, two of three with one edit in the tree: volume for the walk of model/LokiJson.v
 		for i := 0; i < f.N; i++ {
 			c := Case{ID: 3000000 + i, WSeed: r.Int63(), Proto: "loki_json"}
-			if i%5 == 3 { // two of five are Datadog log / metric documents (walks of model/DatadogJson.v)
+			if i%7 == 3 { // two of seven are Datadog log / metric documents (walks of model/DatadogJson.v)
 				c.Proto = "ddlog"
 				genDDLog(r, &c)
-			} else if i%5 == 4 {
+			} else if i%7 == 4 {
 				c.Proto = "ddmet"
 				genDDMet(r, &c)
+			} else if i%7 == 5 { // two of seven are newline-delimited bodies (walks of model/NdjsonWalk.v)
+				c.Proto = "ddcf"
+			} else if i%7 == 6 {
+				c.Proto = "esbulk"
 			} else {
 				genLoki(r, &c, false)
 			}
 			if i%3 != 0 {
 				c.Damage = true
 				flag(&c, "damaged-document")
+			}
+			if c.Proto == "ddcf" {
+				genCF(r, &c)
+			}
+			if c.Proto == "esbulk" {
+				genES(r, &c)
 			}
 			run(&c)
 			out.Put(c)
